@@ -3,6 +3,7 @@
 #   tools/seed_rebase.sh <seeded dir>     (uses a scratch worktree, removed afterwards)
 set -u
 D="$(cd "$1" && pwd)"
+TOOLS="$(cd "$(dirname "$0")" && pwd)"
 WT=/tmp/seed/rebase.$$
 git -C /repo worktree add --detach "$WT" HEAD >/dev/null 2>&1 || exit 2
 cp /repo/Cargo.lock "$WT/" 2>/dev/null
@@ -14,7 +15,7 @@ elif git apply --3way "$D/patch.diff" >/dev/null 2>&1 && [ -z "$(git diff --name
     git diff HEAD -- src > "$D/patch.diff"
     git reset -q --hard HEAD
     echo "$(basename "$D"): rebased with 3-way merge; re-verifying"
-    /verif/tools/seed_verify.sh "$WT" "$D"; RC=$?
+    "$TOOLS/seed_verify.sh" "$WT" "$D"; RC=$?
 else
     echo "$(basename "$D"): CONFLICT, needs manual port"; RC=1
 fi
